@@ -256,6 +256,35 @@ def impl_cases(payload):
     return out
 
 
+def impl_bigmesh(payload):
+    """Mode counts on a mesh large enough that a bin holds more than 2^25 modes (n1d = 384: 56 623 104 modes in one bin that
+    covers every wavenumber): the count must be n1d^3 exactly, for every thread count — integer counts may not pass through
+    a narrower accumulator.  All-zero mesh values: only the counting is exercised."""
+    import numba
+    import numpy as np
+    from abacusnbody.analysis.power_spectrum import bin_kmu, bin_kppi
+    from vlib.implrun import classify
+    n = int(payload['n'])
+    W = np.zeros((n, n, n // 2 + 1), dtype=np.float32)
+    L = 2.0 * np.pi
+    out = []
+    for kern in ('kmu', 'kppi'):
+        for t in payload['threads']:
+            rec = {'kernel': kern, 'nthread': t, 'n': n}
+            try:
+                numba.set_num_threads(16)
+                if kern == 'kmu':
+                    r = bin_kmu(n, L, np.array([0.0, 4.0 * n]), np.array([0.0, 1.0]), W, np.empty(0, 'i8'), np.float32, True, t)
+                    rec.update({'class': 'ok', 'counts': [int(x) for x in r[1].ravel()], 'counts_poles': [int(x) for x in r[3].ravel()]})
+                else:
+                    r = bin_kppi(n, L, np.array([0.0, 4.0 * n]), 4.0 * n, 1, W, np.float32, True, t)
+                    rec.update({'class': 'ok', 'counts': [int(x) for x in r[1].ravel()]})
+            except Exception as e:  # noqa: BLE001
+                rec.update({'class': classify(e), 'error': repr(e)[:200]})
+            out.append(rec)
+    return out
+
+
 def impl_pn(payload):
     """P_n(x, n) of the compiled kernel on dyadic x for even n."""
     import numpy as np
@@ -665,6 +694,25 @@ def explore(ctx):
                 old = counterexamples.get(v['key'])
                 if old is None or size_of(c) < size_of(old['input']):
                     counterexamples[v['key']] = v
+    # large mesh: one bin with more than 2^25 modes must count n1d^3 exactly for every thread count
+    big_n = 384
+    try:
+        big = ctx.run_impl('harness.c08', 'impl_bigmesh', {'n': big_n, 'threads': [1, 4] if ctx.quick() else [1, 2, 4, 16]}, timeout=900)
+    except Exception as e:  # noqa: BLE001
+        big = []
+        ctx.notes.append(f'large-mesh count run failed: {str(e)[:200]}')
+    dist['large_mesh_runs'] = len(big)
+    for r in big:
+        evaluations += 1
+        if r.get('class') != 'ok' or r.get('counts') != [big_n ** 3]:
+            key = f"bin_{r['kernel']}:counts:large-mesh"
+            if key not in counterexamples:
+                counterexamples[key] = {
+                    'key': key, 'what': f"bin_{r['kernel']} n1d={big_n}, one bin covering every wavenumber, nthread={r['nthread']}: "
+                                        f"mode count {r.get('counts')} is not n1d^3 = {big_n ** 3}",
+                    'input': {'bigmesh': True, 'n': big_n, 'kernel': r['kernel'], 'nthread': r['nthread']}, 'impl_result': r,
+                    'expected': {'counts': [big_n ** 3]},
+                    'predicate': 'mode counts are exact integers: every mode of the full mesh inside the binned range counted once'}
     pts, pn_bad = check_pn(ctx)
     evaluations += len(pts)
     for b in pn_bad[:1]:
@@ -756,6 +804,10 @@ def search(ctx, broken):
 
 def replay(ctx, rec):
     c = rec['input']
+    if c.get('bigmesh'):
+        rs = ctx.run_impl('harness.c08', 'impl_bigmesh', {'n': c['n'], 'threads': [c['nthread']]}, timeout=900)
+        r = [x for x in rs if x['kernel'] == c['kernel']][0]
+        return r.get('class') != 'ok' or r.get('counts') != [c['n'] ** 3], {'input': c, 'impl_result': r}
     if 'x' in c and 'ell' in c:
         pts, bad = check_pn(ctx)
         return bool(bad), {'P_n': bad[:3]}
